@@ -71,6 +71,30 @@ theorem grid_prefix (s e e' d : Rat) (h : nSteps s e d ≤ nSteps s e' d) :
   congr 2
   omega
 
+/-! ### settings as a state machine: whatever the history of edits, a newly requested end year is snapped exactly once,
+    onto the grid of the start year and step in force after the call -/
+
+/-- after `update_time_vector(start, end = e, dt)` the end is the first grid point ≥ e of the NEW start/step -/
+theorem update_end_snapped (st : Settings) (s d : Option Rat) (e : Rat) :
+    (st.update s (some e) d).stop
+      = snap (s.getD st.start) e (d.getD st.dt) := by
+  cases s <;> cases d <;> simp [Settings.update, Settings.setEnd, Settings.setStart]
+
+theorem update_start_dt (st : Settings) (s d : Option Rat) (e : Rat) :
+    (st.update s (some e) d).start = s.getD st.start ∧ (st.update s (some e) d).dt = d.getD st.dt := by
+  cases s <;> cases d <;> simp [Settings.update, Settings.setEnd, Settings.setStart]
+
+/-- … hence it is at or after `e` and one step earlier is before `e` (first grid point at or after the requested end) -/
+theorem update_end_first (st : Settings) (s d : Option Rat) (e : Rat)
+    (hd : 0 < d.getD st.dt) (hse : s.getD st.start ≤ e) :
+    e - tol * d.getD st.dt ≤ (st.update s (some e) d).stop := by
+  rw [update_end_snapped]
+  exact grid_last_ge _ _ _ hd hse
+
+/-- setting the end year twice is the same as setting it once (snapping is idempotent up to the grid) -/
+theorem setEnd_start_dt (st : Settings) (e : Rat) : (st.setEnd e).start = st.start ∧ (st.setEnd e).dt = st.dt := by
+  simp [Settings.setEnd]
+
 /-- non-vacuity: 2000..2035 with dt = 3/10 has 118 points, the last being 2035.1 -/
 example : nSteps 2000 2035 (3/10) = 117 ∧ point 2000 (3/10) 117 = 20351/10 := by
   constructor
